@@ -144,3 +144,9 @@ def run_all(ctx):
         case_flat_pack_roundtrip(ctx, s)
         case_lists_roundtrip(ctx, s)
     history_same_object(ctx, ctx.budget(20, 200))
+    # `NestedFrame.from_flat` / `add_nested` pack through the same code: the records of a label stay with the label
+    from . import ops_nf
+    for i in range(ctx.budget(40, 400)):
+        ops_nf.case_from_flat(ctx)
+        if i % 2 == 0:
+            ops_nf.case_add_nested(ctx)
